@@ -57,6 +57,9 @@ def filters():
         ("SortContours", SortContoursFilter, (), {}),
         ("RemoveOverlaps", RemoveOverlapsFilter, (), {}),
         ("CubicToQuadratic", CubicToQuadraticFilter, (), {}),
+        ("CubicToQuadratic[remember]", CubicToQuadraticFilter, (), {"rememberCurveType": True, "reverseDirection": False}),
+        ("RemoveOverlaps[pathops]", RemoveOverlapsFilter, (), {"backend": "pathops"}),
+        ("DecomposeTransformedComponents[pre]", DecomposeTransformedComponentsFilter, (), {"pre": True}),
         ("DottedCircle", DottedCircleFilter, (), {}),
         ("ExplodeColorLayerGlyphs", ExplodeColorLayerGlyphsFilter, (), {}),
     ]
@@ -118,7 +121,7 @@ def explore(ctx):
     rng = ctx.subrng("filters")
     flist = filters()
     cases, meta = [], []
-    for i in range(ctx.budget(84, 560)):
+    for i in range(ctx.budget(7 * len(flist), 35 * len(flist))):
         fname, cls, args, kwargs = flist[i % len(flist)]
         lib = ["ufoLib2", "defcon"][(i // len(flist)) % 2]
         color = fname == "ExplodeColorLayerGlyphs"
@@ -181,6 +184,13 @@ def explore(ctx):
         # ---- statelessness: the same object on a second font vs a fresh object
         if not (color or dotted):     # those two mutate the source font (known findings F4/F5), judged above
             try:
+                # a fresh object on a fresh copy of the SAME source must repeat the first result (nothing was left behind
+                # in the source, e.g. a "already converted" marker in a lib)
+                g1b = _GlyphSet.from_layer(font, copy=True)
+                m1b = set(cls(*args, **kw)(font, g1b))
+                if m1b != modified or snap.glyphset_snapshot(g1b) != after:
+                    ctx.spec_failure(case, "%s: a second run on a fresh copy of the same source differs from the first "
+                                           "(modified %r vs %r)" % (fname, sorted(m1b), sorted(modified)))
                 g2a = _GlyphSet.from_layer(font2, copy=True)
                 ma = set(filt(font2, g2a))
                 sa = snap.glyphset_snapshot(g2a)
